@@ -73,7 +73,7 @@ def _all_none_init(e):
 def rule_writers(E, R):
     rule = "R08-writers"
     W = ctx_writers(E)
-    R.floor(rule, "functions writing an execution context", len(W), 8)
+    R.floor(rule, "functions writing an execution context", len(W), 7)
     new_with = CTX + "::new_with"
     take_with = CTX + "::take_with"
     clone_with = CTX + "::clone_with"
@@ -118,6 +118,9 @@ def rule_writers(E, R):
                     "the deserializer lends out the matcher table only (values go through the checked setter)", str(kinds), where)
         elif fn.endswith("get_list_matcher_mut") or fn.endswith("get_list_matcher_mut_from_type"):
             R.ok(rule, fn, "hands out a matcher by registration index", where=where, nontrivial=False)
+        elif set(kinds) <= {"replace:values", "take:values", "insert:values", "&mut:values", "assign:values"} and \
+                not any(k == "assign:values" and not strip(n_["l"]).get("k") == "Index" and local_name(strip(n_["l"])) is None for k, n_ in ds if k == "assign:values"):
+            R.ok(rule, fn, "writes single slots only (each write is checked by R08-setguard)", str(kinds), where)
         else:
             R.violation(rule, fn, "unreviewed writer of ExecutionContext state: %s" % kinds,
                         "every writer of `values`/`list_matchers` must keep the invariant "
@@ -143,77 +146,191 @@ def _bound_from_get_type(body, name, of):
     return False
 
 
+def _derives_get_type(body, e, of_names):
+    """expression e is `<x>.get_type()` with x in of_names, or a local bound from such a call"""
+    e = strip(e)
+    if e.get("k") == "MethodCall" and e["m"] == "get_type" and local_name(e["recv"]) in of_names:
+        return True
+    nm = local_name(e)
+    if nm:
+        for st in exprs(body, "SLet"):
+            if st["pat"].get("name") == nm and "init" in st:
+                i = strip(st["init"])
+                if i.get("k") == "MethodCall" and i["m"] == "get_type" and local_name(i["recv"]) in of_names:
+                    return True
+    return False
+
+
+def _slot_sites(hb):
+    """mutations of one slot of ExecutionContext.values in this body:
+    [(kind 'store'|'remove', node, stored value expr or None)] — through `self.values[i]` directly or through a local
+    bound to `&mut self.values[i]`"""
+    body = hb["body"]
+    aliases = set()
+    for st in exprs(body, "SLet"):
+        if st["pat"].get("k") == "PBinding" and "init" in st:
+            i = st["init"]
+            while i.get("k") in ("Use", "Type"):
+                i = i["e"]
+            if i.get("k") == "AddrOf" and i.get("mut"):
+                inner = strip(i["e"])
+                if inner.get("k") == "Index" and _touches_field(inner["e"], "values"):
+                    aliases.add(st["pat"]["name"])
+
+    def is_slot(n):
+        n0 = strip(n)
+        if n0.get("k") == "Index" and _touches_field(n0["e"], "values"):
+            return True
+        return local_name(n0) in aliases
+    out = []
+    for c in exprs(body, "MethodCall"):
+        if not is_slot(c["recv"]):
+            continue
+        if c["m"] in ("replace", "insert", "get_or_insert", "get_or_insert_with"):
+            out.append(("store", c, c["args"][0] if c.get("args") else None))
+        elif c["m"] in ("take",):
+            out.append(("remove", c, None))
+    for a in exprs(body, "Assign"):
+        if is_slot(a["l"]):
+            r = strip(a["r"])
+            if def_path(r) == "core::option::Option::None":
+                out.append(("remove", a, None))
+            elif r.get("k") == "Call" and norm(r.get("callee", "")) == "core::option::Option::Some":
+                out.append(("store", a, r["args"][0]))
+            else:
+                out.append(("store", a, a["r"]))
+    for c in exprs(body, "Call"):
+        cal = norm(c.get("callee", ""))
+        if cal in ("core::mem::replace", "core::mem::take", "core::mem::swap") and c.get("args") and is_slot(c["args"][0]):
+            if cal.endswith("take"):
+                out.append(("remove", c, None))
+            else:
+                out.append(("store", c, c["args"][1] if len(c["args"]) > 1 else None))
+    return out
+
+
+def _enclosing_type_guard(body, site, value_names, field_type_ok):
+    """site is inside the then-branch of `if A == B` on full Types where one side is value.get_type() and the other a
+    field type accepted by field_type_ok(expr)"""
+    for n, st in walk_arms(body):
+        if n is site:
+            for ent in st:
+                if ent[0] == "if" and ent[2] is True:
+                    iff = [i for i in exprs(body, "If") if id(i) == ent[1]]
+                    g = _type_eq_guard(iff[0]["cond"]) if iff else None
+                    if g:
+                        for x, y in ((g[0], g[1]), (g[1], g[0])):
+                            if _derives_get_type(body, x, value_names) and field_type_ok(y):
+                                return True
+    return False
+
+
 def rule_setguard(E, R):
     rule = "R08-setguard"
-    for fn, with_scheme in ((CTX + "::set_field_value", True), (CTX + "::set_field_value_from_name", False)):
+    setters = {CTX + "::set_field_value": True, CTX + "::set_field_value_from_name": False}
+    # all slot mutations of the crate, wherever they live (helpers included)
+    holders = {}
+    for hb in E.hir_list:
+        if "body" not in hb:
+            continue
+        fn = norm(hb["path"])
+        if "::tests::" in fn:
+            continue
+        ss = _slot_sites(hb)
+        if ss:
+            holders[fn] = (hb, ss)
+    n_store = 0
+    store_fns = set()
+    for fn, (hb, ss) in sorted(holders.items()):
+        body = hb["body"]
+        params = pat_bindings({"k": "x", "params": hb.get("params", [])})
+        type_params = [p for p in hb.get("params", []) if norm(p.get("ty", "")) == "types::Type"]
+        type_param_names = {p.get("name") for p in type_params}
+
+        def field_type_ok(e):
+            return _derives_get_type(body, e, {"field"}) or (local_name(e) in type_param_names)
+        for kind, node, val in ss:
+            where = node.get("sp", "")
+            if kind == "store":
+                n_store += 1
+                store_fns.add(fn)
+                vnames = {local_name(v) for v in exprs(val, "Path")} if val is not None else set()
+                vnames.discard(None)
+                ok = bool(vnames) and _enclosing_type_guard(body, node, vnames, field_type_ok)
+                R.check(ok, rule, fn, "a value is stored only under `field type == value.get_type()` on that value",
+                        "a weaker or missing test lets an ill-typed value into the context", where)
+            else:
+                # emptying a slot: only under the same successful test (so a failed set changes nothing)
+                guarded = False
+                for n, st in walk_arms(body):
+                    if n is node:
+                        for ent in st:
+                            if ent[0] == "if" and ent[2] is True:
+                                iff = [i for i in exprs(body, "If") if id(i) == ent[1]]
+                                if iff and _type_eq_guard(iff[0]["cond"]):
+                                    guarded = True
+                R.check(guarded, rule, fn, "a slot is emptied only after the type check succeeded",
+                        "the previous value is taken out before (or regardless of) the type check: a rejected set erases the "
+                        "stored value instead of leaving the context unchanged", where)
+        # helper with a Type parameter: every caller passes the field's own type and index
+        if fn not in setters and type_param_names:
+            for hc in E.hir_list:
+                if "body" not in hc:
+                    continue
+                for c in calls(hc["body"], "^" + re.escape(fn) + "$"):
+                    args = call_args(c)
+                    passes_ft = any(_derives_get_type(hc["body"], a, {"field"}) for a in args)
+                    passes_idx = any(strip(a).get("m") == "index" and local_name(strip(a)["recv"]) == "field" for a in args)
+                    R.check(passes_ft and passes_idx, rule, norm(hc["path"]), "helper %s receives the field's own type and index" % last_seg(fn),
+                            where=c["sp"])
+    R.floor(rule, "guarded value stores", n_store, 1)
+    # each public setter reaches a store (own or through a helper it calls) and resolves the field in its own scheme
+    for fn, with_scheme in setters.items():
         h = E.hir(fn)
         if not h:
             R.cannot(rule, fn, "anchor not found")
             continue
         body = h["body"]
-        stores = [c for c in exprs(body, "MethodCall") if c["m"] in ("replace", "insert") and _touches_field(c["recv"], "values")]
-        R.floor(rule, "stores in " + fn, len(stores), 1)
-        for c in stores:
-            # stored value
-            val = local_name(c["args"][0])
-            # index
-            ix = [i for i in exprs(c["recv"], "Index")]
-            idx_ok = bool(ix) and strip(ix[0]["idx"]).get("m") == "index" and local_name(strip(ix[0]["idx"])["recv"]) == "field"
-            R.check(idx_ok, rule, fn, "the slot written is the field's own index", where=c["sp"])
-            guarded = False
-            detail = "no enclosing `field_type == value_type` test"
-            for n, st in walk_arms(body):
-                if n is c:
-                    for ent in st:
-                        if ent[0] == "if" and ent[2] is True:
-                            iff = [i for i in exprs(body, "If") if id(i) == ent[1]]
-                            g = _type_eq_guard(iff[0]["cond"]) if iff else None
-                            if g:
-                                ln, rn = local_name(g[0]), local_name(g[1])
-                                a = _bound_from_get_type(body, ln, "field") and _bound_from_get_type(body, rn, val)
-                                b = _bound_from_get_type(body, rn, "field") and _bound_from_get_type(body, ln, val)
-                                direct = False
-                                guarded = guarded or a or b or direct
-                                if not (a or b):
-                                    detail = "the compared types are not (field.get_type(), %s.get_type())" % val
-            R.check(guarded, rule, fn, "store dominated by `field.get_type() == value.get_type()` on the stored value",
-                    detail + ": a weaker test (variant only, or another value) lets an ill-typed value in", c["sp"])
-            # the previous value is what the caller gets
-            ok_ret = False
-            for ok in exprs(body, "Call"):
-                if norm(ok.get("callee", "")) == "core::result::Result::Ok" and strip(ok["args"][0]) is c:
-                    ok_ret = True
-            R.check(ok_ret, rule, fn, "returns the previously stored value (the result of replace)", where=c["sp"])
-        # derived, full equality on Type / CompoundType
-        for adt in ("types::Type", "types::CompoundType", "types::PrimitiveType"):
-            der = [i for i in E.impls if i.get("self_adt") == adt and i.get("trait") == "core::cmp::PartialEq"]
-            R.check(len(der) == 1 and der[0]["derived"], rule, adt, "PartialEq is derived (compares the full nested type)",
-                    str([(i["path"], i["derived"]) for i in der]))
+        reach = fn in store_fns or any(list(calls(body, "^" + re.escape(f) + "$")) for f in store_fns)
+        R.check(reach, rule, fn, "the setter performs the (guarded) store", "no store reached from this setter", h["span"])
+        # index is the field's own
+        if fn in holders:
+            for kind, node, val in holders[fn][1]:
+                recv = node.get("recv") or node.get("l") or {}
+                ix = [i for i in exprs(recv, "Index")]
+                if ix:
+                    idx_ok = strip(ix[0]["idx"]).get("m") == "index" and local_name(strip(ix[0]["idx"])["recv"]) == "field"
+                    R.check(idx_ok, rule, fn, "the slot written is the field's own index", where=node.get("sp", ""))
+                if kind == "store" and node.get("k") == "MethodCall" and node["m"] == "replace":
+                    ok_ret = any(norm(ok.get("callee", "")) == "core::result::Result::Ok" and strip(ok["args"][0]) is node for ok in exprs(body, "Call"))
+                    R.check(ok_ret, rule, fn, "returns the previously stored value (the result of replace)", where=node.get("sp", ""))
         if with_scheme:
-            # scheme test first, returning Err
+            first_store = None
             stmts = body.get("stmts", [])
-            first = None
+            guard_i = None
             for i, st in enumerate(stmts):
                 for iff in exprs(st, "If", into_closures=False):
                     c = strip(iff["cond"])
-                    if c.get("k") == "Binary" and c["op"] in ("Ne",) and "scheme::Scheme" in norm(c["l"].get("ty", "")) and explicit_err_returns(iff["then"]):
+                    if c.get("k") == "Binary" and c["op"] == "Ne" and "scheme::Scheme" in norm(c["l"].get("ty", "")) and explicit_err_returns(iff["then"]):
                         sides = [strip(c["l"]), strip(c["r"])]
-                        own = any(s.get("k") == "Field" and s.get("name") == "scheme" and local_name(s["e"]) == "self" for s in sides)
-                        fld = any(any(m["m"] == "scheme" and local_name(m["recv"]) == "field" for m in exprs(s, "MethodCall")) for s in sides)
-                        if own and fld:
-                            first = i
-            store_stmt = None
-            for i, st in enumerate(stmts):
-                if any(x is stores[0] for x in exprs(st, "MethodCall")) if stores else False:
-                    store_stmt = i
-            tl = body.get("expr")
-            in_tail = tl is not None and stores and any(x is stores[0] for x in exprs(tl, "MethodCall"))
-            R.check(first is not None and (in_tail or (store_stmt is not None and first < store_stmt)), rule, fn,
-                    "a field of another scheme is rejected before anything is written", where=h["span"])
+                        own = any(s_.get("k") == "Field" and s_.get("name") == "scheme" and local_name(s_["e"]) == "self" for s_ in sides)
+                        fld = any(any(m["m"] == "scheme" and local_name(m["recv"]) == "field" for m in exprs(s_, "MethodCall")) for s_ in sides)
+                        if own and fld and guard_i is None:
+                            guard_i = i
+            # nothing that can write happens before the scheme test
+            early = []
+            for st in stmts[:guard_i if guard_i is not None else 0]:
+                early += [c for c in exprs(st, ("MethodCall", "Call")) if c.get("m") in ("replace", "take", "insert") or
+                          any(norm(c.get("callee", "")) == f for f in store_fns)]
+            R.check(guard_i is not None and not early, rule, fn, "a field of another scheme is rejected before anything is written", where=h["span"])
         else:
             gf = list(calls(body, r"scheme::Scheme::get_field$"))
             ok = len(gf) == 1 and root_is_field(gf[0]["recv"], "self", "scheme") and local_name(gf[0]["args"][0]) == "name"
             R.check(ok, rule, fn, "the field is resolved in the context's own scheme", where=h["span"])
+    for adt in ("types::Type", "types::CompoundType", "types::PrimitiveType"):
+        der = [i for i in E.impls if i.get("self_adt") == adt and i.get("trait") == "core::cmp::PartialEq"]
+        R.check(len(der) == 1 and der[0]["derived"], rule, adt, "PartialEq is derived (compares the full nested type)",
+                str([(i["path"], i["derived"]) for i in der]))
 
 
 def rule_execguard(E, R):
